@@ -151,7 +151,7 @@ func main() {
 		if pc != nil {
 			trimmed = cs.HasCall(pc.Body, "trimScanResponse") || cs.HasCall(pc.Body, "isReadOnlyRequest")
 		}
-		o.Set("cmd.proposeScanTrimmed", "raftstore/store/command_service.go:ProposeCommand", fmt.Sprint(trimmed), pc != nil, "false")
+		o.Set("cmd.proposeScanTrimmed", "raftstore/store/command_service.go:ProposeCommand", fmt.Sprint(trimmed), pc != nil, "true")
 	}
 
 	// ---------------------------------------------------------------- admin_service.go / region_manager.go (C24)
@@ -191,7 +191,7 @@ func main() {
 				rule, okShape = "adjacent", true
 			}
 		}
-		o.Set("cat.mergeRule", "raftstore/store/admin_service.go:handleMergeCommand", rule, okShape, "extendEndOnly")
+		o.Set("cat.mergeRule", "raftstore/store/admin_service.go:handleMergeCommand", rule, okShape, "adjacent")
 		o.Set("cat.mergeBumpsVersion", "raftstore/store/admin_service.go:handleMergeCommand", fmt.Sprint(bumps), hm != nil, "true")
 	}
 	rm := o.Load("raftstore/store/region_manager.go")
